@@ -341,6 +341,9 @@ def finish(out, extra_coverage=None):
     """Write evidence, print verdict lines, return exit code."""
     known, _fixed = load_known()
     os.makedirs(os.path.join(EVID, "replay"), exist_ok=True)
+    for fn in os.listdir(os.path.join(EVID, "replay")):
+        if fn.startswith(out.prop + "-"):
+            os.unlink(os.path.join(EVID, "replay", fn))
     by_key = {}
     for v in out.violations:
         by_key.setdefault(v["key"], []).append(v)
